@@ -108,3 +108,15 @@ theorem C12_dropped_partition_ignored {M : Type} [AddCommMonoid M] (g : List Sch
     dagVal (Sched.depsOf g) (fun x => workers.contains x) result (g.length + 1) final
       = dagVal (Sched.depsOf g) (fun x => workers.contains x) result' (g.length + 1) final :=
   dagVal_dropped_worker_ignored _ _ result result' workers.toFinset (by intro t; simp) _ final w0 h0 hsame
+
+/-- **how many levels the pairwise reduction needs**: after `k` levels `⌈n / 2^k⌉` partial sums are left
+and their total is still the total, so a single statistic is left exactly when `n ≤ 2^k`. The code's
+`while len(stats) > 1` runs until then; a depth fixed in advance must be at least `⌈log2 n⌉` -/
+theorem C12_tree_levels_needed {M : Type} [AddCommMonoid M] (l : List M) (hne : l ≠ []) (k : ℕ) :
+    ((treeReduce (· + ·) k l).length = 1 ↔ l.length ≤ 2 ^ k) ∧ (treeReduce (· + ·) k l).sum = l.sum :=
+  ⟨treeReduce_single_iff k l hne, (treeReduce_levels k l hne).2⟩
+
+/-- five partitions need three levels: after two (`round (log2 5)`) two partial sums are left, and
+"the first of them" lacks the fifth partition -/
+example : (treeReduce (· + ·) 2 [1, 2, 3, 4, 5] : List ℕ) = [10, 5] ∧ (treeReduce (· + ·) 3 [1, 2, 3, 4, 5] : List ℕ) = [15] := by
+  decide
